@@ -458,6 +458,59 @@ macro_rules! build_info {
     }};
 }
 
+/// The hash-key seam, instantiated in a binary crate: defines the `getrandom` symbol std resolves
+/// (weakly) for `RandomState` keys. A thread that called `set_thread_hash_keys` gets those bytes; any
+/// other thread gets the real system call. Also provides `with_hash_keys(keys, f)`, which runs `f` on a
+/// fresh OS thread whose keys are `keys` (one simulated thread / process).
+#[macro_export]
+macro_rules! define_hash_key_seam {
+    () => {
+        thread_local! {
+            static __SEAM_KEYS: ::std::cell::Cell<Option<[u8; 16]>> = const { ::std::cell::Cell::new(None) };
+            static __SEAM_SERVED: ::std::cell::Cell<u32> = const { ::std::cell::Cell::new(0) };
+        }
+
+        #[no_mangle]
+        pub unsafe extern "C" fn getrandom(buf: *mut u8, len: usize, flags: u32) -> isize {
+            match __SEAM_KEYS.with(|k| k.get()) {
+                Some(bytes) => {
+                    for i in 0..len {
+                        *buf.add(i) = bytes[i % 16];
+                    }
+                    __SEAM_SERVED.with(|s| s.set(s.get() + 1));
+                    len as isize
+                }
+                None => {
+                    extern "C" {
+                        fn syscall(num: i64, ...) -> i64;
+                    }
+                    // SYS_getrandom = 318 on x86_64
+                    syscall(318, buf, len, flags) as isize
+                }
+            }
+        }
+
+        #[allow(dead_code)]
+        pub fn seam_served_on_this_thread() -> u32 {
+            __SEAM_SERVED.with(|s| s.get())
+        }
+
+        /// Run `f` on a fresh OS thread whose std hash keys are `keys`.
+        #[allow(dead_code)]
+        pub fn with_hash_keys<R: Send + 'static>(keys: [u8; 16], f: impl FnOnce() -> R + Send + 'static) -> R {
+            ::std::thread::Builder::new()
+                .stack_size(64 << 20)
+                .spawn(move || {
+                    __SEAM_KEYS.with(|k| k.set(Some(keys)));
+                    f()
+                })
+                .expect("spawn")
+                .join()
+                .expect("simulated thread panicked outside catch")
+        }
+    };
+}
+
 #[cfg(test)]
 mod tests {
     use super::*;
